@@ -131,6 +131,47 @@ if live_finding("F08a"):
     R.contracts[OAS + "BaseOpenAPISchema._collect_operation_parameters"].requires.append(
         "not any(p['name'] == s['name'] and p['in'] == s['in'] for p in operation.get('parameters', ()) for s in PATH_LEVEL())  # EXCLUDED REGION F08a: same (name, in) at both levels")
 
+# ------------------------------------------------------------------------------------------------- get_all_operations: every documented operation is offered, reported or deselected - once
+R.exception_classes["RefResolutionError"] = "Exception"
+R.contract("schemathesis.schemas:BaseSchema.dispatch_hook", args={"self": Opq("Any"), "name": Str, "context": Opq("Any"), "path": Opq("Any"), "path_item": Opq("Any")}, returns=NoneT, trusted=True,
+           note="user hooks `before_process_path` (C19 contracts): may not be relied upon here")
+R.contract(OAS + "BaseOpenAPISchema._resolve_path_item", args={"self": Opq("Any"), "methods": Opq("Any")}, returns=lambda it, env: (Str.make(it, it.path.fresh("scope")), env["methods"]),
+           raises=["RefResolutionError"], trusted=True, note="E3: (scope, the path item with a top-level $ref resolved) or an unresolvable reference")
+R.contract(OAS + "in_scope", args={"resolver": Opq("Any"), "scope": Opq("Any")}, returns=lambda it, env: it.B.NoopCM(None), trusted=True, note="pushes / pops the resolution scope (E3)")
+R.contract(OAS + "BaseOpenAPISchema._resolve_operation", args={"self": Opq("Any"), "operation": Opq("Any")}, returns=lambda it, env: env["operation"], raises=["KeyError"], trusted=True,
+           note="E3: the operation with references resolved, or a schema parsing error")
+R.contract(OAS + "BaseOpenAPISchema._should_skip", args={"self": Opq("Any"), "path": Str, "method": Str, "definition": Opq("Any")},
+           returns=lambda it, env: it.path.choose([(False, True), (True, True)], "deselected"), trusted=True,
+           effects={"skipped": "ghost('skipped') + ([(path, method)] if result else [])"}, note="C07 contracts: the filter decision for this operation")
+R.contract(OAS + "BaseOpenAPISchema.make_operation", args={"self": Opq("Any"), "path": Str, "method": Str, "parameters": Opq("Any"), "raw": Opq("Any"), "resolved": Opq("Any"), "scope": Opq("Any"),
+                                                              "with_security_parameters": Opq("Any")},
+           returns=Opq("Operation"), trusted=True, effects={"made": "ghost('made') + [(path, method)]", "made_with": "ghost('made_with') + [parameters]"},
+           note="builds the APIOperation from the collected parameters")
+R.contract(OAS + "BaseOpenAPISchema._into_err", args={"self": Opq("Any"), "error": Opq("Any"), "path": Opq("Any"), "method": Opq("Any")}, returns=Opq("ErrResult"), trusted=True,
+           effects={"errs": "ghost('errs') + [(path, method)]"}, note="wraps the schema error with its location")
+R.contract("schemathesis.hooks:HookContext", abstract_only=True, args={}, returns=Opq("HookContext"), note="dataclass constructor")
+Entry = DictOf(optional={"parameters": Const(())})
+PI = DictOf(optional={"get": Entry, "post": Entry, "parameters": Const(()), "x-internal": Opq("Ext")})
+DOC = "[(p, m) for p in all_paths(self) for m in all_paths(self)[p] if m in ('get', 'put', 'post', 'delete', 'options', 'head', 'patch', 'trace')]"
+R.spec_funcs["all_paths"] = lambda it, self_: self_.fields["raw_schema"]["paths"]
+R.contract(
+    OAS + "BaseOpenAPISchema.get_all_operations",
+    prop="C08",
+    args={"self": Obj(OAS + "BaseOpenAPISchema", raw_schema=DictOf(required={"paths": DictOf(optional={"/a": PI, "/b": PI})}), resolver=Opq("Resolver")), "generation_config": NoneT},
+    ghost={"made": [], "made_with": [], "errs": [], "skipped": [], "shared": [], "given": []},
+    raises=[],
+    ensures={
+        # every documented operation is offered with its parameters, reported as a schema error, or deselected by the filters - exactly once; a path item that cannot be resolved is reported once
+        "each_documented_operation_exactly_once": "all(ghost('made').count(pm) + ghost('errs').count(pm) + ghost('skipped').count(pm) == 1 or ghost('errs').count((pm[0], None)) == 1 for pm in " + DOC + ")",
+        "nothing_invented": "all(pm in " + DOC + " for pm in ghost('made') + ghost('skipped')) and all(pm in " + DOC + " or (pm[1] is None and pm[0] in all_paths(self)) for pm in ghost('errs'))",
+        "one_result_per_offered_or_reported": "length(result) == length(ghost('made')) + length(ghost('errs'))",
+        "unresolvable_path_reported_once_and_alone": "all(implies(ghost('errs').count((p, None)) > 0, ghost('errs').count((p, None)) == 1 and not any(pm[0] == p for pm in ghost('made'))) for p in all_paths(self))",
+    },
+    bounded_note="documents with up to 2 paths x {get, post, parameters, extension key}",
+    replayable=False,
+    max_paths=40000,
+)
+
 NATIVE = {"helpers": {"list_of": list, "paths_of": lambda self_: self_.raw_schema.get("paths", {})}}
 
 LEVEL_TEXT = ("Deductive: cache representation invariant (inductive over insertions = every access order), operationId index scope rule, effective-parameter rule; "
